@@ -44,6 +44,12 @@ type PropDef struct {
 	Gen         func(c *RunCtx) []*Batch
 	Assumptions []string
 	Rule        string
+	// for code-returning correspondences: which failed comparisons contradict the property on the case's input
+	// (Behav), which only break the tie between model and code (Fidelity), and which mean "not compared" (Ignore)
+	Behav    []int
+	Fidelity []int
+	Ignore   []int
+	CodeText map[int]string
 }
 
 var props = map[string]*PropDef{}
@@ -273,11 +279,50 @@ func main() {
 			fmt.Printf("VIOLATION property=%s replay=%s%s\n", id, path, suffix)
 		}
 	}
+	inSet := func(l []int, c int) bool {
+		for _, x := range l {
+			if x == c {
+				return true
+			}
+		}
+		return false
+	}
+	var fidelity []Mismatch
+	ignored := 0
 	for _, m := range mismatches {
-		report("", "implementation and verified model disagree on this input; the model's output is what the property requires", m, "")
+		if m.Codes == nil {
+			report("", "implementation and verified model disagree on this input; the model's output is what the property requires", m, "")
+		} else {
+			var bc, fc []string
+			for _, c := range m.Codes {
+				switch {
+				case inSet(p.Behav, c):
+					bc = append(bc, fmt.Sprintf("%d:%s", c, p.CodeText[c]))
+				case inSet(p.Fidelity, c):
+					fc = append(fc, fmt.Sprintf("%d:%s", c, p.CodeText[c]))
+				default:
+					ignored++
+				}
+			}
+			if len(bc) > 0 {
+				report("", "the implementation contradicts the property on this input: "+strings.Join(bc, "; "), m, "")
+			} else if len(fc) > 0 {
+				m.ModelOut = strings.Join(fc, "; ") + "\n" + m.ModelOut
+				fidelity = append(fidelity, m)
+			}
+		}
 		if violations >= 10 {
 			break
 		}
+	}
+	ctx.Extra["not_compared_out_of_domain"] = ignored
+	if violations == 0 && len(fidelity) > 0 {
+		n := len(fidelity)
+		if n > 5 {
+			fidelity = fidelity[:5]
+		}
+		report("", "the correspondence between the model and the implementation no longer checks (the theorems are about the model, so the property is no longer shown for this code); no input was found on which the implementation contradicts the property",
+			map[string]interface{}{"broken_correspondence": fidelity, "count": n, "searched": fmt.Sprintf("%d generated cases", evals)}, " no-failing-input-found")
 	}
 	for _, d := range ctx.Direct {
 		report(d.Sig, d.What, d, "")
